@@ -297,7 +297,18 @@ namespace
       Parsed p0 = parse(b0, d0, c_r0, vary, size_t(-1), bc.empty() ? nullptr : &bc);
       if(!bc.empty()) sim::probe("multi_file_mesh");
       if(p0.outcome != PARSED) sim::fail("VALID_FILE_REJECTED", where + ": shipped mesh file rejected: " + p0.what);
-      for(int r = 0; r < refine; ++r) d0.node = d0.node->refine_unique(Geometry::AdaptMode::none);
+      for(int r = 0; r < refine; ++r)
+      {
+        // a refined (or cloned) node is what applications write out: it has to carry the same mesh-part -> chart links as
+        // the node that was read, by name (what the writer emits) and by pointer (what adaption uses)
+        std::map<String, std::pair<String, bool>> links;
+        for(const auto& n : d0.node->get_mesh_part_names()) links[n] = {d0.node->find_mesh_part_chart_name(n), d0.node->find_mesh_part_chart(n) != nullptr};
+        auto next = (simfs::pick(2, "derive_via_clone") == 0) ? d0.node->refine_unique(Geometry::AdaptMode::none) : d0.node->clone_unique()->refine_unique(Geometry::AdaptMode::none);
+        for(const auto& kv : links)
+          if(next->find_mesh_part_chart_name(kv.first) != kv.second.first || (next->find_mesh_part_chart(kv.first) != nullptr) != kv.second.second)
+            sim::fail("DERIVED_NODE_CHART_LINK", where + ": mesh part '" + kv.first + "' is linked to chart '" + kv.second.first + "' in the node that was read and to '" + next->find_mesh_part_chart_name(kv.first) + "' in the node refined from it");
+        d0.node = std::move(next);
+      }
       Bytes b1;
       write(d0, b1, c_w1, vary);
       CNT.bytes += b1.size();
